@@ -68,7 +68,7 @@ def gen_cases(ctx):
         calls = []
         for _ in range(rng.choice([1, 2, 3, 4])):
             kind = rng.choice(["ok", "ok", "missing", "inject", "inject", "duplicate", "invalid-module",
-                               "unused", "invalid-vector", "bad-citation", "bad-citation"])
+                               "unused", "invalid-vector", "bad-citation", "bad-citation", "repeated-member"])
             mods = list(range(q))
             rng.shuffle(mods)
             call = {"kind": kind, "vector": vi, "mods": mods}
@@ -81,6 +81,10 @@ def gen_cases(ctx):
                     call["kind"] = "ok"
             elif kind == "inject":
                 call["inject"] = rng.randrange(0, q + 1)          # q = the vector's own extraction
+            elif kind == "repeated-member":
+                # the same module OBJECT listed twice (one module, one dereference)
+                call["mods"] = mods + [rng.choice(mods)]
+                rng.shuffle(call["mods"])
             elif kind == "duplicate":
                 call["mods"] = mods + [extra["dup"]]
                 rng.shuffle(call["mods"])
